@@ -1414,7 +1414,12 @@ class Unserializer:
                     raise LoadError(
                         f"unknown opcode {opcode!r} - wire protocol corruption?"
                     ) from None
-                loader(self)
+                try:
+                    loader(self)
+                except (struct.error, TypeError, ValueError, IndexError) as exc:
+                    raise LoadError(
+                        f"corrupt data for opcode {opcode!r}: {exc}"
+                    ) from exc
         except _Stop:
             if len(self.stack) != 1:
                 raise LoadError("internal unserialization error") from None
@@ -1557,7 +1562,8 @@ class Unserializer:
 
     def load_channel(self) -> None:
         id = self._read_int4()
-        assert self.channelfactory is not None
+        if self.channelfactory is None:
+            raise LoadError("cannot load a channel outside of a gateway")
         newchannel = self.channelfactory.new(id)
         self.stack.append(newchannel)
 
